@@ -78,7 +78,8 @@ def gen_plan(rng, index, tier):
     cfg["is_rgb"] = rng.random() < 0.6
     n = 12
     order = [rng.randrange(n) for _ in range(rng.randint(2, 8))]
-    return {"mode": "frameworks", "kind": kind, "scene": scene, "cfg": cfg, "order": order, "reopen": rng.random() < 0.4}
+    return {"mode": "frameworks", "kind": kind, "scene": scene, "cfg": cfg, "order": order, "reopen": rng.random() < 0.4,
+            "stale_dir": rng.random() < 0.3}
 
 
 def describe(plan):
@@ -116,6 +117,10 @@ def shrink(plan):
         if plan["reopen"]:
             p = copy.deepcopy(plan)
             p["reopen"] = False
+            yield p
+        if plan.get("stale_dir"):
+            p = copy.deepcopy(plan)
+            p["stale_dir"] = False
             yield p
         c = plan["cfg"]
         for k, v in (("scale", 1.0), ("max_stride", 1), ("output_stride", 1), ("paf_stride", 1), ("is_rgb", True), ("anchor", None)):
@@ -247,7 +252,7 @@ def _execute(plan, choices=None):
     violations = []
     trace = []
     probes = {"npz_samples_compared": 0, "streaming_samples_compared": 0, "reopened_npz_compared": 0, "scale_not_one": 0,
-              "size_matched": 0, "grayscale_conversion": 0, "blocks_compared": 0, "missing_anchor_case": 0}
+              "size_matched": 0, "grayscale_conversion": 0, "blocks_compared": 0, "missing_anchor_case": 0, "stale_chunks_in_dir": 0}
 
     def V(kind, where, detail):
         violations.append({"kind": kind, "sig": f"{kind}:{where}", "detail": detail})
@@ -262,6 +267,10 @@ def _execute(plan, choices=None):
         os.makedirs(root)
         try:
             ref = dw.build_dataset(kind, dw.build_labels(scene), cfg)
+            if plan.get("stale_dir"):
+                # the chunk directory was used before (an earlier run on the project as it looked before the user edited it)
+                dw.build_dataset(kind, dw.build_labels(dw.stale_scene(scene)), cfg, np_chunks=True, np_chunks_path=os.path.join(root, "npz"))
+                probes["stale_chunks_in_dir"] = 1
             npz = dw.build_dataset(kind, dw.build_labels(scene), cfg, np_chunks=True, np_chunks_path=os.path.join(root, "npz"))
             lab_s = dw.build_labels(scene)
             stream, store = build_streaming(kind, lab_s, cfg, scene)
